@@ -97,6 +97,46 @@ theorem mf_only_outside_power_quantities :
     mfOnlyParams.all (fun p => Gen.descTransfer.quantNames.all (fun q => outside Gen.descMassFunction p q)) = true := by
   decide +kernel
 
+open Gen in
+/-- upper bounds on static cones: the parameters a quantity may depend on at all (CDM classes) -/
+def coneBounds : List (Name × List Name) :=
+  let cos := [N.cosmo_model, N.cosmo_params]
+  let grid := [N.lnk_min, N.lnk_max, N.dlnk]
+  let tr := cos ++ [N.transfer_model, N.transfer_params] ++ grid
+  [ (N.cosmo, cos), (N.mean_density0, cos),
+    (N.growth, cos ++ [N.growth_model, N.growth_params]),
+    (N._growth_factor_fn, cos ++ [N.growth_model, N.growth_params]),
+    (N.growth_factor, cos ++ [N.growth_model, N.growth_params, N.z, N.use_splined_growth]),
+    (N.transfer, cos ++ [N.transfer_model, N.transfer_params]),
+    (N.k, grid),
+    (N._unnormalised_lnT, tr),
+    (N._unnormalised_power, tr ++ [N.n]),
+    (N._unn_sig8, tr ++ [N.n]),
+    (N._normalisation, tr ++ [N.n, N.sigma_8]),
+    (N._power0, tr ++ [N.n, N.sigma_8]),
+    (N.power, tr ++ [N.n, N.sigma_8, N.growth_model, N.growth_params, N.z, N.use_splined_growth]) ]
+open Gen in
+def coneBoundsMF : List (Name × List Name) :=
+  let cos := [N.cosmo_model, N.cosmo_params]
+  let grid := [N.lnk_min, N.lnk_max, N.dlnk]
+  let tr := cos ++ [N.transfer_model, N.transfer_params] ++ grid
+  [ (N.m, [N.Mmin, N.Mmax, N.dlog10m]),
+    (N.filter, tr ++ [N.n, N.filter_model, N.filter_params]),
+    (N.radii, cos ++ [N.Mmin, N.Mmax, N.dlog10m, N.filter_model, N.filter_params] ++ tr ++ [N.n]),
+    (N._unn_sigma0, tr ++ [N.n, N.filter_model, N.filter_params, N.Mmin, N.Mmax, N.dlog10m]),
+    (N._sigma_0, tr ++ [N.n, N.sigma_8, N.filter_model, N.filter_params, N.Mmin, N.Mmax, N.dlog10m]) ]
+
+def withinBounds (C : ClassDesc) (bs : List (Name × List Name)) : Bool :=
+  bs.all (fun b => (C.cone b.1).all (fun p => !(C.isParam p) || b.2.contains p))
+
+
+/-- **cone upper bounds.** In the CDM classes every listed quantity can depend, through any chain of reads in the regenerated
+    descriptors, only on the parameters physics lets it depend on: the cosmology object only on the cosmology parameters, the growth
+    component and its callable not on z, the transfer component and wavenumber grid not on anything else, … -/
+theorem cone_upper_bounds :
+    [Gen.descTransfer, Gen.descMassFunction].all (fun C => withinBounds C coneBounds) = true := by decide +kernel
+theorem cone_upper_bounds_mass_function : withinBounds Gen.descMassFunction coneBoundsMF = true := by decide +kernel
+
 /-- WDM classes: the same table **minus** `z → _unnormalised_lnT` (known finding: the WDM component
     takes `z`); stated as `_partial`. -/
 theorem independence_table_wdm_partial :
